@@ -211,10 +211,14 @@ def run_pairs(ws, recs, fail_specs):
     reg.append("var WFuncs = map[string]any{")
     for r in good:
         reg.append('\t"%d": w%d.Init,' % (r["k"], r["k"]))
+        if r["meta"].get("second") is not None:
+            reg.append('\t"%d:2": w%d.Init2,' % (r["k"], r["k"]))
     reg.append("}")
     reg.append("var KFuncs = map[string]any{")
     for r in good:
         reg.append('\t"%d": k%d.Init,' % (r["k"], r["k"]))
+        if r["meta"].get("second") is not None:
+            reg.append('\t"%d:2": k%d.Init2,' % (r["k"], r["k"]))
     reg.append("}")
     open(os.path.join(ws.root, "cmd", "run", "reg.go"), "w").write("\n".join(reg) + "\n")
     src = RUN_GO
@@ -241,6 +245,10 @@ def run_pairs(ws, recs, fail_specs):
         specs.append({"Name": str(r["k"])})
         for f in fail_specs(r):
             specs.append({"Name": str(r["k"]), "Fail": {f: True}})
+        if r["meta"].get("second") is not None:
+            specs.append({"Name": "%d:2" % r["k"]})
+            for f in fail_specs(r, r["meta"]["second"]):
+                specs.append({"Name": "%d:2" % r["k"], "Fail": {f: True}})
     p = subprocess.run([exe], input="\n".join(json.dumps(s) for s in specs) + "\n", stdout=subprocess.PIPE, stderr=subprocess.PIPE, text=True, timeout=600)
     results = [json.loads(l) for l in p.stdout.splitlines() if l.startswith("{")]
     return broken, list(zip(specs, results)), p.stderr[-500:]
@@ -277,8 +285,9 @@ def migrate_stream(tier, seed):
     for k in range(n):
         cfg = W.gen_cfg(rng, "faithful" if k % 3 != 2 else "any")
         recs.append(process_cfg(ws, k, cfg, wire, cli))
-    def fails(r):
-        return ["%sT%d" % (nd["name_style"], nd["id"]) for nd in r["cfg"]["nodes"] if nd["err"] and nd["kind"] in ("fn", "fnerr", "bind")][:2]
+    def fails(r, root=0):
+        keep = set(W.subtree(r["cfg"]["nodes"], root))
+        return ["%sT%d" % (nd["name_style"], nd["id"]) for nd in r["cfg"]["nodes"] if nd["id"] in keep and nd["err"] and nd["kind"] in ("fn", "fnerr", "bind")][:2]
     # C14: the migrated file alone must compile in the source package (wire files set aside, before generation is irrelevant: the band is there too)
     broken, pairs, err = run_pairs(ws, recs, fails)
     res = dict(ws=ws, recs=recs, broken=broken, pairs=pairs, err=err)
@@ -333,9 +342,10 @@ def check_c13(tier, seed):
         else:
             for sp, rs in S["pairs"]:
                 runs += 1
-                r = recs[int(sp["Name"])]
+                r = recs[int(sp["Name"].split(":")[0])]
+                second = sp["Name"].endswith(":2")
                 w, k = rs["W"], rs["K"]
-                exp = W.expected_term(r["cfg"])
+                exp = W.expected_term(r["cfg"], r["cfg"]["second"] if second else 0)
                 if not sp.get("Fail") and w["Term"] != exp and not w["Panic"]:
                     R.violation("reference disagreement: real wire computes %s, the reference written from wire's documentation says %s [%s]" % (w["Term"], exp, r["desc"]),
                                 {"kind": "correspondence-broken", "correspondence": "wiregen.expected_term vs real google/wire", "config": r["desc"]})
@@ -358,11 +368,14 @@ def check_c13(tier, seed):
                     if w["Err"] != k["Err"] and not (w["Err"] and k["Err"] and sp.get("Fail") is None):
                         diffs.append("error differs: wire %r, kessoku %r" % (w["Err"], k["Err"]))
                 if diffs:
+                    if second:
+                        diffs.insert(0, "second injector Init2 (sub-graph below node %d)" % r["cfg"]["second"])
                     finding(r, "behaviour-differs", "; ".join(diffs), {"spec": sp, "wire": w, "kessoku": k})
         # ---- correspondence: the Lean model of wire / migrate / kessoku predicts, per configuration, whether the
         # migration is refused and whether the two injectors compute the same term
         prepare(repo_dir)
-        lines = ["W " + W.encode(r["cfg"]) for r in accepted]
+        units = [(r, 0) for r in accepted] + [(r, r["cfg"]["second"]) for r in accepted if r["cfg"].get("second") is not None]
+        lines = ["W " + W.encode(r["cfg"], root) for r, root in units]
         model = C.lean_driver(lines)
         equal_impl = {}
         if S["pairs"] is not None:
@@ -370,18 +383,21 @@ def check_c13(tier, seed):
                 if sp.get("Fail"):
                     continue
                 w, k = rs["W"], rs["K"]
-                equal_impl[int(sp["Name"])] = (not k["Panic"] and w["Term"] == k["Term"] and sorted(w["Events"] or []) == sorted(k["Events"] or [])
-                                               and norm_params(w["Params"]) == norm_params(k["Params"]))
+                equal_impl[sp["Name"]] = (not k["Panic"] and w["Term"] == k["Term"] and sorted(w["Events"] or []) == sorted(k["Events"] or [])
+                                          and norm_params(w["Params"]) == norm_params(k["Params"]))
         mdiffs = []
-        for r, m in zip(accepted, model):
+        for (r, root), m in zip(units, model):
+            nm = str(r["k"]) + (":2" if root else "")
             if r["mig_rc"] != 0:
+                if root:
+                    continue            # the refusal is a verdict on the whole package; the model judges one injector
                 impl = "W migrate=refused"
-            elif r["k"] in equal_impl:
-                impl = "W migrate=ok equal=%s" % ("true" if equal_impl[r["k"]] else "false")
+            elif nm in equal_impl:
+                impl = "W migrate=ok equal=%s" % ("true" if equal_impl[nm] else "false")
             else:
                 impl = "W migrate=ok equal=false"
             if impl != m:
-                mdiffs.append((r["desc"], m, impl))
+                mdiffs.append((r["desc"] + (" [Init2]" if root else ""), m, impl))
         R.oblige("correspondence: Wire.wireEval / Wire.migrate / Wire.kEval predict, per configuration, refusal and equality of the two injectors (%d configurations)" % len(accepted),
                  not mdiffs, "%d differ; first: %s" % (len(mdiffs), mdiffs[:1]))
         if mdiffs and not R.violations:
